@@ -435,6 +435,42 @@ def mutation_checks(acc):
             search(e0, cal, res, acc)
 
 
+def same_operand_checks(acc):
+    """The SAME calendar object on both sides of one operator (`week + week` to double a capacity, `x - x`, `x * x`, `x / x`,
+    `x | x`) and twice inside a nested expression: the operator is applied to the operands' values, however the operands came about."""
+    ds = dates()
+    for L in LEAVES:
+        for o in OPS:
+            x = build(L)
+            try:
+                cal = {'+': lambda: x + x, '-': lambda: x - x, '*': lambda: x * x, '/': lambda: x / x, '|': lambda: x | x}[o]()
+                nested = {'+': lambda: (x + 2) + x, '-': lambda: (x + 2) - x, '*': lambda: (x + 2) * x, '/': lambda: (x + 2) / x,
+                          '|': lambda: (x - 100) | x}[o]()
+            except RuntimeError:
+                continue
+            for e, c in ((('op', o, L, L), cal),
+                         (('op', o, ('op', '+' if o != '|' else '-', L, ('num', 2 if o != '|' else 100)), L), nested)):
+                acc.count('same_operand_cases')
+                acc.count('nontrivial')
+                for d in ds:
+                    try:
+                        exp = ref(e, d)
+                    except ZeroDivisionError:
+                        continue
+                    if exp == 'UNDEF':
+                        continue
+                    try:
+                        got = c.get_available_units(d)
+                    except ZeroDivisionError:
+                        acc.count('skipped_division_by_zero_valued_calendar')
+                        continue
+                    acc.count('lookups')
+                    if not veq(got, exp):
+                        acc.violation('C17', f'lookup/{o}/same-object-twice', f'{show(e)} built from ONE calendar object on {d}: got {got}, '
+                                      f'reference {exp}', {'expr': show(e), 'date': str(d)})
+                        break
+
+
 def constructor_checks(acc):
     from pjplan import WeeklyCalendar, DirectCalendar, FixedCalendar
     cases = []
@@ -485,6 +521,7 @@ def run(rep):
     runtime.run_chunks(_work, chunks, rep.acc)
     constructor_checks(rep.acc)
     mutation_checks(rep.acc)
+    same_operand_checks(rep.acc)
     c = rep.acc.counters
     rep.coverage.update({
         'evaluations': c['lookups'] + c['searches'] + c['constructor_cases'],
